@@ -179,7 +179,10 @@ type scenario struct {
 	resume    int64  // explicit resume sequence (0 = none)
 	grow      []bool // appended records (true = delete record)
 	maxFail   int
-	resub     int  // re-registrations by the subscriber (each after 5 virtual seconds)
+	resub     int  // re-registrations by the subscriber
+	resubGap  int  // virtual seconds between them (default 5)
+	failSleep int  // back-off ticks after a failed post (default 2; production 60)
+	growGapMs int  // virtual milliseconds between appended records (0 = all at once)
 	closer    bool // Close() by a third thread
 	expectAll bool
 }
@@ -197,6 +200,7 @@ func main() {
 		{name: "P2-resume+reorg", initial: 3, resume: 1, grow: []bool{false, true, false}, maxFail: 2},
 		{name: "P3-deactivate-reactivate", initial: 3, resume: 1, grow: []bool{false}, maxFail: 4, resub: 2},
 		{name: "P4-close", initial: 2, resume: 1, grow: []bool{false, false}, maxFail: 1, closer: true},
+		{name: "P5-reregister-during-backoff", initial: 3, resume: 1, grow: []bool{false, false, false, false}, maxFail: 2, resub: 3, resubGap: 1, failSleep: 4, growGapMs: 700},
 	}
 	bound := r.Pick(4, 6)
 	var cur *world
@@ -207,7 +211,11 @@ func main() {
 			for i := 0; i < sc.initial; i++ {
 				w.log.add(i, false)
 			}
-			w.push = blockchain.VerifNewPush(w.store, w.log, w, cfg, 2)
+			fs := int32(2)
+			if sc.failSleep > 0 {
+				fs = int32(sc.failSleep)
+			}
+			w.push = blockchain.VerifNewPush(w.store, w.log, w, cfg, fs)
 			w.sub = &types.PushSubscribeReq{Name: "s", URL: "http://x", Type: int32(blockchain.PushBlockHeader), Encode: "proto"}
 			if sc.resume > 0 {
 				w.sub.LastSequence = sc.resume
@@ -220,6 +228,9 @@ func main() {
 			}
 			vrt.GoNamed("chain", func() {
 				for i, del := range sc.grow {
+					if sc.growGapMs > 0 && i > 0 {
+						vtime.Sleep(vtime.Duration(sc.growGapMs) * vtime.Millisecond)
+					}
 					w.log.add(sc.initial+i, del)
 					last, _ := w.log.LoadBlockLastSequence()
 					w.push.UpdateSeq(last)
@@ -228,7 +239,11 @@ func main() {
 			if sc.resub > 0 {
 				vrt.GoNamed("subscriber", func() {
 					for i := 0; i < sc.resub; i++ {
-						vtime.Sleep(5 * vtime.Second)
+						gap := 5
+						if sc.resubGap > 0 {
+							gap = sc.resubGap
+						}
+						vtime.Sleep(vtime.Duration(gap) * vtime.Second)
 						s2 := *w.sub
 						if err := w.push.VerifAddSubscriber(&s2); err != nil {
 							w.bad = append(w.bad, "re-registration: "+err.Error())
